@@ -1304,6 +1304,11 @@ class _Streamer(mcasm.Streamer):
 
     @_convert_errors
     def emit_bytes(self, state: mcasm.ParserState, data: bytes) -> None:
+        # An empty string literal emits nothing; it must not create an empty
+        # block with an encoding.
+        if not data:
+            return
+
         if not self._prevent_print_as_string_count:
             if self._try_terminate_previous_ascii_block(state, data):
                 return
